@@ -6,8 +6,10 @@ import (
 	"fmt"
 	"math/rand"
 	"path/filepath"
+	"runtime"
 	"strings"
 	"sync"
+	"sync/atomic"
 	"time"
 
 	"go.lsp.dev/protocol"
@@ -58,9 +60,9 @@ func ccText(u string, v int) string {
 type ccJob struct {
 	uri     string
 	ver     int
-	reached string // the last yield point the replay has seen the job reach
-	at    chan string        // gate names in the order the job reaches them ("started", "loaded", "atPublish", "done")
-	gates map[string]chan struct{}
+	reached string      // the last yield point the replay has seen the job reach
+	at      chan string // gate names in the order the job reaches them ("started", "loaded", "atPublish", "done")
+	gates   map[string]chan struct{}
 }
 
 type ccCtl struct {
@@ -328,6 +330,38 @@ func init() {
 	}
 }
 
+// blockedGoroutines summarises where the server's goroutines are waiting (for a deadlock report).
+func blockedGoroutines() string {
+	buf := make([]byte, 1<<20)
+	n := runtime.Stack(buf, true)
+	var out []string
+	for _, g := range strings.Split(string(buf[:n]), "\n\n") {
+		if !strings.Contains(g, "hledger-lsp/internal/server") {
+			continue
+		}
+		lines := strings.Split(g, "\n")
+		head := lines[0]
+		var frames []string
+		for _, l := range lines[1:] {
+			if strings.Contains(l, "hledger-lsp/internal/") && !strings.HasPrefix(l, "\t") {
+				f := strings.TrimPrefix(l, "github.com/juev/hledger-lsp/internal/")
+				if i := strings.Index(f, "("); i > 0 && !strings.HasPrefix(f, "server.(") {
+					f = f[:i]
+				}
+				frames = append(frames, strings.SplitN(f, "(0x", 2)[0])
+				if len(frames) >= 3 {
+					break
+				}
+			}
+		}
+		out = append(out, head+" "+strings.Join(frames, " <- "))
+		if len(out) >= 6 {
+			break
+		}
+	}
+	return strings.Join(out, " || ")
+}
+
 // ---- stress
 
 type strOp struct {
@@ -338,10 +372,10 @@ type strOp struct {
 }
 
 type strCase struct {
-	ID        string `json:"id"`
-	Workspace bool   `json:"workspace"`
+	ID        string  `json:"id"`
+	Workspace bool    `json:"workspace"`
 	Ops       []strOp `json:"ops"`
-	Seed      int64  `json:"seed"`
+	Seed      int64   `json:"seed"`
 }
 
 var strPayloads = []map[string]any{
@@ -352,7 +386,13 @@ var strPayloads = []map[string]any{
 	{"features": map[string]any{"diagnostics": true}, "cli": map[string]any{"enabled": false}},
 }
 
+var stressStuck atomic.Int32
+
 func runStress(c strCase, dir string) (any, error) {
+	if stressStuck.Load() >= 3 {
+		// enough deadlocked servers are already parked in this process; the verdict does not need more of them
+		return map[string]any{"id": c.ID, "requests": 0, "stuck": "", "skipped": true}, nil
+	}
 	ctx := context.Background()
 	names := map[string]string{"u1": "main.journal", "u2": "a.journal", "u3": "b.journal"}
 	text := func(u string, v int) string {
@@ -391,49 +431,61 @@ func runStress(c strCase, dir string) (any, error) {
 	}()
 	vers := map[string]int{}
 	open := map[string]bool{}
-	nreq := 0
 	for u := range names {
 		vers[u] = 1
 		open[u] = true
 		_ = sess.srv.DidOpen(ctx, &protocol.DidOpenTextDocumentParams{TextDocument: protocol.TextDocumentItem{URI: uris[u], Version: 1, Text: text(u, 1)}})
 	}
-	for _, op := range c.Ops {
-		if rng.Intn(4) == 0 {
-			time.Sleep(time.Duration(rng.Intn(300)) * time.Microsecond) // seeded jitter: vary which steps of the background jobs the next message meets
-		}
-		u := uris[op.URI]
-		switch op.Op {
-		case "change":
-			vers[op.URI]++
-			ch := protocol.TextDocumentContentChangeEvent{Range: protocol.Range{End: protocol.Position{Line: 10000000}}, Text: text(op.URI, vers[op.URI])}
-			_ = sess.srv.DidChange(ctx, &protocol.DidChangeTextDocumentParams{
-				TextDocument:   protocol.VersionedTextDocumentIdentifier{TextDocumentIdentifier: protocol.TextDocumentIdentifier{URI: u}},
-				ContentChanges: []protocol.TextDocumentContentChangeEvent{ch}})
-		case "config":
-			p := strPayloads[op.Arg%len(strPayloads)]
-			client.mu.Lock()
-			client.config = func() []interface{} { return []interface{}{p} }
-			client.mu.Unlock()
-			_ = sess.srv.DidChangeConfiguration(ctx, &protocol.DidChangeConfigurationParams{Settings: p})
-		case "save":
-			_ = writeFiles(dir, map[string]string{names[op.URI]: text(op.URI, vers[op.URI])})
-			_ = sess.srv.DidSave(ctx, &protocol.DidSaveTextDocumentParams{TextDocument: protocol.TextDocumentIdentifier{URI: u}})
-		case "close":
-			_ = sess.srv.DidClose(ctx, &protocol.DidCloseTextDocumentParams{TextDocument: protocol.TextDocumentIdentifier{URI: u}})
-			open[op.URI] = false
-		case "open":
-			_ = sess.srv.DidOpen(ctx, &protocol.DidOpenTextDocumentParams{TextDocument: protocol.TextDocumentItem{URI: u, Version: 1, Text: text(op.URI, vers[op.URI])}})
-			open[op.URI] = true
-		case "request":
-			nreq++
-			if op.Kind == "executeCommand" {
-				_, _ = sess.srv.ExecuteCommand(ctx, &protocol.ExecuteCommandParams{Command: "hledger.run", Arguments: []interface{}{"bal", string(u)}})
-			} else {
-				_, _ = callRequest(ctx, sess.srv, op.Kind, u, 1, 6)
+	var opIndex, nreqA atomic.Int32
+	_, hangs := timed(45*time.Second, func() {
+		for i, op := range c.Ops {
+			opIndex.Store(int32(i))
+			if rng.Intn(4) == 0 {
+				time.Sleep(time.Duration(rng.Intn(300)) * time.Microsecond) // seeded jitter: vary which steps of the background jobs the next message meets
+			}
+			u := uris[op.URI]
+			switch op.Op {
+			case "change":
+				vers[op.URI]++
+				ch := protocol.TextDocumentContentChangeEvent{Range: protocol.Range{End: protocol.Position{Line: 10000000}}, Text: text(op.URI, vers[op.URI])}
+				_ = sess.srv.DidChange(ctx, &protocol.DidChangeTextDocumentParams{
+					TextDocument:   protocol.VersionedTextDocumentIdentifier{TextDocumentIdentifier: protocol.TextDocumentIdentifier{URI: u}},
+					ContentChanges: []protocol.TextDocumentContentChangeEvent{ch}})
+			case "config":
+				p := strPayloads[op.Arg%len(strPayloads)]
+				client.mu.Lock()
+				client.config = func() []interface{} { return []interface{}{p} }
+				client.mu.Unlock()
+				_ = sess.srv.DidChangeConfiguration(ctx, &protocol.DidChangeConfigurationParams{Settings: p})
+			case "save":
+				_ = writeFiles(dir, map[string]string{names[op.URI]: text(op.URI, vers[op.URI])})
+				_ = sess.srv.DidSave(ctx, &protocol.DidSaveTextDocumentParams{TextDocument: protocol.TextDocumentIdentifier{URI: u}})
+			case "close":
+				_ = sess.srv.DidClose(ctx, &protocol.DidCloseTextDocumentParams{TextDocument: protocol.TextDocumentIdentifier{URI: u}})
+				open[op.URI] = false
+			case "open":
+				_ = sess.srv.DidOpen(ctx, &protocol.DidOpenTextDocumentParams{TextDocument: protocol.TextDocumentItem{URI: u, Version: 1, Text: text(op.URI, vers[op.URI])}})
+				open[op.URI] = true
+			case "request":
+				nreqA.Add(1)
+				if op.Kind == "executeCommand" {
+					_, _ = sess.srv.ExecuteCommand(ctx, &protocol.ExecuteCommandParams{Command: "hledger.run", Arguments: []interface{}{"bal", string(u)}})
+				} else {
+					_, _ = callRequest(ctx, sess.srv, op.Kind, u, 1, 6)
+				}
 			}
 		}
+	})
+	// liveness: no message of the serial stream may block for good ...
+	nreq := int(nreqA.Load())
+	if hangs != "" {
+		stressStuck.Add(1)
+		k := int(opIndex.Load())
+		op := c.Ops[k]
+		return map[string]any{"id": c.ID, "requests": nreq, "stuck": fmt.Sprintf("message %d of the stream (%s %s %s) did not return within 45 s: %s | %s",
+			k, op.Op, op.URI, op.Kind, hangs, blockedGoroutines())}, nil
 	}
-	// liveness: every background job the stream started must end
+	// ... and every background job the stream started must end
 	stuck := ""
 	if !waitUntil(60*time.Second, func() bool {
 		sess.ctl.mu.Lock()
